@@ -212,7 +212,11 @@ func s5(builder string, L, nbTasks int) scenario {
 		}
 		return acc
 	}
-	return scenario{name: fmt.Sprintf("S5-workers-%s-L%d-n%d", builder, L, nbTasks), mode: vsched.Preemption, bound: [2]int{1, 2},
+	bq := 1
+	if nbTasks > 2 {
+		bq = 0 // with 3 workers the forced-switch orders alone are hundreds of schedules
+	}
+	return scenario{name: fmt.Sprintf("S5-workers-%s-L%d-n%d", builder, L, nbTasks), mode: vsched.Preemption, bound: [2]int{bq, bq + 1},
 		setup: func() ([]func() string, []string) {
 			ccs := mustCompile(builder, mk())
 			wOK := mustWitness([]int64{expected(3, 5)}, []int64{3, 5})
@@ -245,7 +249,7 @@ func sProve(backendName string) scenario {
 		gpk    groth16.ProvingKey
 		gvk    groth16.VerifyingKey
 	}
-	return scenario{name: "S2-prove||prove-shared-options-" + backendName, mode: vsched.Delay, bound: [2]int{1, 2},
+	return scenario{name: "S2-prove||prove-shared-options-" + backendName, mode: vsched.Delay, bound: [2]int{1, 2}, local: true,
 		setup: func() ([]func() string, []string) {
 			wits := []witness.Witness{mustWitness([]int64{6}, []int64{2, 3}), mustWitness([]int64{20}, []int64{4, 5})}
 			shared := make([]solver.Option, 0, 8)
